@@ -7,7 +7,13 @@ import (
 	"time"
 
 	"github.com/ipfs/go-cid"
+	"github.com/ipld/go-ipld-prime"
+	"github.com/ipld/go-ipld-prime/datamodel"
+	"github.com/ipld/go-ipld-prime/fluent/qp"
+	cidlink "github.com/ipld/go-ipld-prime/linking/cid"
+	basicnode "github.com/ipld/go-ipld-prime/node/basic"
 	"github.com/ipni/go-libipni/dagsync"
+	"github.com/ipni/go-libipni/ingest/schema"
 	"github.com/libp2p/go-libp2p/core/peer"
 
 	"verif/sim/simkit"
@@ -127,6 +133,10 @@ func runC01(r *simkit.Run, c Cfg) {
 	tp := r.Tape
 	w := NewWorld(r)
 	r.EnableSites(map[string]bool{}) // library yield points off: one sync at a time
+	if c.Case < 0 && tp.Chance(1, 12, "sideLinks") {
+		c01SideLinks(r, w)
+		return
+	}
 
 	// An empty chain (publisher without root) is outside the statement: it
 	// speaks of successful syncs of a requested head.
@@ -800,4 +810,126 @@ func c01TreeCall(t *simkit.Task, w *World, pub *PubNode, sub *SubNode) {
 
 func init() {
 	Register(&Scenario{Name: "C01", Property: "C01", Run: runC01})
+}
+
+// c01SideLinks: a chain whose blocks also link to blocks off the chain,
+// synced with the non-strict advertisement selector (every link of a block
+// is followed). Off-chain blocks are reported after the rest of the segment
+// they were found in; the hook names the predecessor for a chain block and
+// says nothing for the others, which is what the documented contract asks
+// ("the last call ... during a segmented sync cycle dictates which CID will
+// be synced in the next cycle"). No off-chain link sits on a block that is
+// the last of a full segment: such links are not followed when the traversal
+// is split there (a limitation of segmenting that predates everything here),
+// and the statement compares segment sizes on the blocks that are reported.
+func c01SideLinks(r *simkit.Run, w *World) {
+	tp := r.Tape
+	n := tp.Range(2, 7, "side.n")
+	seg := int64(-1)
+	if tp.Chance(3, 4, "side.seg?") {
+		seg = int64(tp.Range(1, n+1, "side.seg"))
+	}
+	quiet := tp.Chance(1, 3, "side.quietEnd")
+	pub := w.NewPublisher(PubOpts{Name: "P1", NAds: 0, Hosts: []string{"10.0.0.1:3104"}})
+	// built oldest first; position h counts from the head (h = 0)
+	chain := make([]cid.Cid, n)
+	side := make([]cid.Cid, n)
+	prevOf := map[cid.Cid]cid.Cid{}
+	for i := 0; i < n; i++ {
+		h := n - 1 - i
+		boundary := seg > 0 && int64(h)%seg == seg-1
+		var sd cid.Cid
+		if !boundary && tp.Chance(1, 2, "side.has") {
+			sd = storeTreeNode(pub, fmt.Sprintf("side%d", h), nil)
+			w.Names.Set(sd.String(), fmt.Sprintf("P1.side%d", h))
+		}
+		var prev cid.Cid
+		if i > 0 {
+			prev = chain[h+1]
+		}
+		nd := must(qp.BuildMap(basicnode.Prototype.Map, 3, func(ma datamodel.MapAssembler) {
+			qp.MapEntry(ma, "N", qp.Int(int64(h)))
+			if prev.Defined() {
+				qp.MapEntry(ma, "PreviousID", qp.Link(cidlink.Link{Cid: prev}))
+			}
+			if sd.Defined() {
+				qp.MapEntry(ma, "Side", qp.Link(cidlink.Link{Cid: sd}))
+			}
+		}))
+		c := must(pub.LS.Store(ipld.LinkContext{}, schema.Linkproto, nd)).(cidlink.Link).Cid
+		w.Names.Set(c.String(), fmt.Sprintf("P1.a%d", h))
+		chain[h], side[h] = c, sd
+		prevOf[c] = prev
+	}
+	pub.Pub.SetRoot(chain[0])
+	sub := w.NewSubscriber(dagsync.StrictAdsSelector(false), dagsync.SegmentDepthLimit(seg), dagsync.RecvAnnounce(""))
+	lst := &listener{}
+	lst.ch, lst.cancel = sub.Sub.OnSyncFinished()
+	var got []string
+	hook := func(p peer.ID, c cid.Cid, act dagsync.SegmentSyncActions) {
+		got = append(got, w.CidName(c))
+		prev, onChain := prevOf[c]
+		switch {
+		case !onChain:
+		case prev.Defined():
+			act.SetNextSyncCid(prev)
+		case !quiet:
+			act.SetNextSyncCid(cid.Undef)
+		}
+	}
+	// reference: per segment the chain blocks, then the off-chain blocks of
+	// the segment, deepest first
+	var want []string
+	k := n
+	if seg > 0 {
+		k = int(seg)
+	}
+	for s := 0; s < n; s += k {
+		e := min(s+k, n) - 1
+		for h := s; h <= e; h++ {
+			want = append(want, w.CidName(chain[h]))
+		}
+		for h := e; h >= s; h-- {
+			if side[h].Defined() {
+				want = append(want, w.CidName(side[h]))
+			}
+		}
+	}
+	r.Logf("~cfg", "chain of %d with off-chain links %v, non-strict selector, seg=%d quietEnd=%v", n, want, seg, quiet)
+	var head cid.Cid
+	var err error
+	done := false
+	r.Go("sync", func(t *simkit.Task) {
+		head, err = sub.Sub.SyncAdChain(bg, pub.AddrInfo(), dagsync.ScopedBlockHook(hook))
+		done = true
+		t.Logf("SyncAdChain -> %s err=%v", w.CidName(head), err)
+	})
+	if out := r.Loop(simkit.LoopCfg{MaxSteps: 600, Custom: w.Net.RequestAction, Done: func() bool { return done && len(r.AllParked()) == 0 }}); out != "done" {
+		r.Violate("c01.liveness", "sync with the non-strict selector did not return (%s)", out)
+		return
+	}
+	switch {
+	case err != nil:
+		r.Violate("c01.error", "fault-free SyncAdChain with the non-strict selector failed: %v", err)
+	case head != chain[0]:
+		r.Violate("c01.head", "returned head %s, want %s", w.CidName(head), w.CidName(chain[0]))
+	case !eqStrs(got, want):
+		r.Violate("c01.hooks", "chain with off-chain links, non-strict selector, segment size %d: hook saw %v, reference says %v", seg, got, want)
+	case sub.Latest(pub) != chain[0]:
+		r.Violate("c01.latest", "latest-sync is %s, want %s", w.CidName(sub.Latest(pub)), w.CidName(chain[0]))
+	}
+	r.Quiesce()
+	if evs := lst.drain(); !r.Failed() && (len(evs) != 1 || evs[0].Count != len(want) || evs[0].Cid != chain[0]) {
+		r.Violate("c01.event", "%d events (want one for %s with count %d): %v", len(evs), w.CidName(chain[0]), len(want), evs)
+	}
+	for h := 0; h < n && !r.Failed(); h++ {
+		if !sub.Store.Has(chain[h]) || side[h].Defined() && !sub.Store.Has(side[h]) {
+			r.Violate("c01.store", "a reported block of position %d is not in the local store", h)
+		}
+	}
+	r.Probe("chain-with-off-chain-links")
+	r.State(fmt.Sprintf("side n=%d seg=%d", n, seg))
+	r.NoteEnabled(2)
+	r.MarkEnd()
+	w.Shutdown(sub, lst)
 }
